@@ -153,7 +153,7 @@ def for_property(prop):
 
         def plan(tier, seed):
             q = tier == "quick"
-            items = [("preempt", i, 6 if q else 60, 10) for i in range(16 if q else 64)]
+            items = [("preempt", i, 6 if q else 24, 10) for i in range(16 if q else 64)]
             items += [("plain", i, 3000 if q else 30000, 14) for i in range(4 if q else 16)]
             return items
         m.plan = plan
